@@ -1,6 +1,7 @@
 package main
 
 import (
+	"regexp"
 	"os"
 	"crypto/sha256"
 	"fmt"
@@ -81,6 +82,8 @@ type VerifyOpts struct {
 }
 
 // VerifyFunc generates the obligations of one function under contract.
+var pureNameRe = regexp.MustCompile(`pure\s+func\s+([A-Za-z_][A-Za-z0-9_]*)\s*\(`)
+
 func (w *World) VerifyFunc(lc *LoadedContract, opts VerifyOpts) (res *FuncResult) {
 	fn := lc.Fn
 	res = &FuncResult{Name: lc.FullName, Kind: "contract", SSAHash: ssaHash(fn)}
@@ -94,6 +97,45 @@ func (w *World) VerifyFunc(lc *LoadedContract, opts VerifyOpts) (res *FuncResult
 	ex := NewExec(w, lc.FullName)
 	ex.safety = opts.Safety
 	ex.lockChecks = opts.LockChecks
+	// forwarding ghost (thread-level log of received values, receive count stamped on every send): only built for
+	// the functions whose contract speaks about it, directly or through a specification function
+	stampWords := []string{"sentStamp(", "recvTotal(", "recvTotalAt("}
+	for changed := true; changed; {
+		changed = false
+		for _, sf := range w.specFiles {
+			for _, p := range sf.Pures {
+				m := pureNameRe.FindStringSubmatch(p)
+				if m == nil {
+					continue
+				}
+				word := m[1] + "("
+				have := false
+				for _, sw := range stampWords {
+					if sw == word {
+						have = true
+					}
+				}
+				if have {
+					continue
+				}
+				body := p[strings.Index(p, "{"):]
+				for _, sw := range stampWords {
+					if strings.Contains(body, sw) {
+						stampWords = append(stampWords, word)
+						changed = true
+						break
+					}
+				}
+			}
+		}
+	}
+	for _, cl := range lc.C.Clauses {
+		for _, sw := range stampWords {
+			if strings.Contains(cl.Expr, sw) {
+				ex.stamps = true
+			}
+		}
+	}
 	defer func() {
 		res.Notes = ex.notes
 		res.Trusted = sortedKeys(ex.trusted)
